@@ -4,6 +4,7 @@ import (
 	"fmt"
 	"go/token"
 	"go/types"
+	"strconv"
 	"strings"
 
 	"golang.org/x/tools/go/ssa"
@@ -45,7 +46,7 @@ func propC01(c *Ctx) {
 	c.Check("R1.2", "Converge/load-localHash=latest-hash", ld.Pos(), okHash, "load is handed the hash read by the same latest call (as an argument of its own or inside the position)")
 
 	// ---- R1.3 ---------------------------------------------------------
-	c.Rule("R1.3", "first/last element access on a block slice is dominated by a proof that the slice is non-empty", 4)
+	c.Rule("R1.3", "first/last element access on a block slice is dominated by a proof that the slice is non-empty", 3) // 4 on the tree; a walk that starts from the recorded hash has no access to element 0
 	pkg := c.W.Pkg("shovel")
 	summary := map[*ssa.Function]bool{} // fn returns (non-empty slice | non-nil error)
 	flagIdx := map[*ssa.Function]int{}  // … or sets the boolean result of this index
@@ -705,7 +706,26 @@ func checkPositionFromLastInserted(c *Ctx, rule string, upd *ssa.Call, insBlocks
 		arg  int
 		meth string
 	}{{2, "Num"}, {3, "Hash"}} {
-		recv, ok := valueMethodArg(upd.Call.Args[spec.arg], "eth", "Block", spec.meth)
+		var recv ssa.Value
+		ok := false
+		if spec.arg < len(upd.Call.Args) {
+			recv, ok = valueMethodArg(upd.Call.Args[spec.arg], "eth", "Block", spec.meth)
+		}
+		if !ok {
+			// the position handed over as one value (update(pg, last, target, …) with last := positionOf(&blocks[
+			// len(blocks)-1])): what the statement binds to the num / hash column, seen through the call
+			if v, found := insertedColumnValue(c.W, upd, strings.ToLower(spec.meth)); found {
+				if r, isM := valueMethodArg(v.v, "eth", "Block", spec.meth); isM {
+					// the receiver read through a pointer the helper was handed (`*b` with b = &blocks[len-1])
+					if u, isU := stripConv(r).(*ssa.UnOp); isU && u.Op == token.MUL {
+						if _, isP := u.X.(*ssa.Parameter); isP {
+							r = u.X
+						}
+					}
+					recv, ok = stripConv(unfold(v.with(r)).v), true
+				}
+			}
+		}
 		good := false
 		detail := "update argument is not eth.Block." + spec.meth + "() of a slice element"
 		if ok {
@@ -719,4 +739,34 @@ func checkPositionFromLastInserted(c *Ctx, rule string, upd *ssa.Call, insBlocks
 		}
 		c.Check(rule, "Converge/update-"+strings.ToLower(spec.meth)+"-from-last-inserted", upd.Pos(), good, detail)
 	}
+}
+
+// insertedColumnValue: the value the callee of call binds to column col of its `insert into
+// shovel.task_updates` statement, unfolded through the call (parameters → arguments, members of a struct
+// argument → what the literal, or the helper that made it, put there).
+func insertedColumnValue(w *World, call *ssa.Call, col string) (cval, bool) {
+	callee := staticCallee(call)
+	if callee == nil {
+		return cval{}, false
+	}
+	for _, s := range sqlSites(w) {
+		if s.Fn != callee || s.Stmt == nil || !strings.Contains(s.Stmt.InsertRel, "task_updates") {
+			continue
+		}
+		for i, cn := range s.Stmt.InsertCols {
+			if cn != col || i >= len(s.Stmt.InsertVals) {
+				continue
+			}
+			pv := s.Stmt.InsertVals[i]
+			if !strings.HasPrefix(pv, "$") {
+				continue
+			}
+			n, err := strconv.Atoi(pv[1:])
+			if err != nil || n < 1 || n > len(s.Args) || s.Args[n-1] == nil {
+				continue
+			}
+			return unfold(cval{v: s.Args[n-1], stack: []*ssa.Call{call}}), true
+		}
+	}
+	return cval{}, false
 }
